@@ -309,4 +309,6 @@ if __name__ == "__main__":
         rc = 2
     sys.stdout.flush()
     scratch.cleanup()
+    if os.environ.get("VERIF_COVERAGE"):   # measuring which lines of /repo the checks execute (DESIGN.md §13.8): let the interpreter exit normally so that the tracer can save
+        sys.exit(rc)
     os._exit(rc)
